@@ -99,17 +99,18 @@ def bytes_eq(xs, ys):
 
 def _conc_slice_bound(v, L, default):
     """Concretise a (possibly symbolic) slice bound for a buffer of concrete length L.
-    Python clamps bounds, so the cases are: negative (relative to the end), 0..L, > L."""
+    Python clamps bounds: everything above L behaves like L, everything below -L like 0;
+    the values in [-L, L] are case-split."""
     if v is None:
         return default
-    if isinstance(v, (SInt, SBV)):
+    if isinstance(v, SBV):
+        v = v.to_sint("bv")
+    if isinstance(v, SInt):
         ctx = cur()
-        if isinstance(v, SBV):
-            v = v.to_sint("bv")
         if ctx.decide((v > L).e):
             return L
         if ctx.decide((v < -L).e):
-            return -L - 1 if False else 0 if default == 0 else 0   # below -L clamps to 0
+            return 0
         return v.__index__()
     return v
 
